@@ -12,7 +12,27 @@ def gen_faulted(rng):
     c = r.link.used[0] if r.link.used else None
     tin = c.in_off if c else 1
     tout = c.out_off if c else 1
-    return [scen.with_fault(rng, base, tin, tout) for _ in range(3)]
+    out = []
+    for _ in range(3):
+        s = scen.with_fault(rng, base, tin, tout)
+        if rng.random() < 0.5:
+            # late packets of the BROKEN session's streams (ids it really allocated) arrive on the new connection right after its handshake:
+            # the new session must not mistake them for its own (its ids continue after the old ones)
+            pre = copy.deepcopy(s)
+            pre["ops"] = pre["ops"][:s["n_before"]]
+            rr = session.Runner(pre, "sync")
+            obs = rr.run()
+            used = max([o["lid"] for o in obs] + [0])
+            if 1 <= used < 2 ** 31:
+                from sim_device import pkt
+                late = b""
+                for lid in sorted(set(rng.randrange(1, used + 1) for _ in range(3))):
+                    rem = rng.randrange(60, 90)
+                    late += pkt(b"OKAY", rem, lid) + pkt(b"WRTE", rem, lid, b"old output") + (pkt(b"CLSE", rem, lid) if rng.random() < 0.7 else b"")
+                healthy = s["envs"][-1]
+                healthy["sim"] = dict(healthy["sim"], stray=list(healthy["sim"].get("stray", [])) + [(2, late)])     # with the 2nd host packet (the first OPEN): before the real OKAY
+        out.append(s)
+    return out
 
 
 def tcp_reset(ctx):
